@@ -94,7 +94,11 @@ def c08_case(draw):
         ids = sorted(set(re.findall(r' id="([^"]+)"', text)))
         if ids:
             victim = draw(st.sampled_from(ids))
-            new = draw(st.sampled_from(["g_0", "grad1_0", "nested-svg-viewport-0", "g_1_0", "lg2_0", "grad2_1"]))
+            # names picosvg would generate itself: <gradient id>_<n> for clones of transformed gradients
+            # (derived from the gradients actually present), g_<n>, nested-svg-viewport-<n>
+            gids = sorted(set(re.findall(r'<(?:linear|radial)Gradient id="([^"]+)"', text)))
+            derived = [f"{g}_{n}" for g in gids for n in (0, 1) if g != victim]
+            new = draw(st.sampled_from((derived * 3 if derived else []) + ["g_0", "nested-svg-viewport-0", "grad1_0"]))
             if new not in ids:
                 text = text.replace(f'"{victim}"', f'"{new}"').replace(f"#{victim})", f"#{new})").replace(f'"#{victim}"', f'"#{new}"')
                 return {"svg": text, "feat": feat + ["id-collision"]}
